@@ -16,6 +16,9 @@ use linfa_elasticnet::{ElasticNet, MultiTaskElasticNet};
 use linfa_linear::LinearRegression;
 use ndarray::{Array1, Array2};
 
+#[path = "c11x.rs"]
+mod x;
+
 fn canon(x: f64) -> f64 {
     x + 0.0
 }
@@ -171,7 +174,10 @@ pub(crate) fn oracle_enet(ctx: &mut Ctx, em_counts: &mut Vec<String>, c: &EnetCa
         let xscale: f64 = (0..p).map(|j| dot(&col(&c.x, j), &col(&c.x, j)).sqrt()).fold(0.0, f64::max);
         let near_stationary = l1 == 0.0 && dual_norm(&c.x, w, &r, l2) <= 1e3 * c.rel * xscale * (s.sqrt() + 1e-300);
         let g1 = gap_with_const(&yc, w, &r, l1, l2, 1.0);
-        let close = |a: f64, b: f64| (a - b).abs() <= c.rel * s + 1e-9 * b.abs() + 1e-12;
+        // the running residual drifts from y − Xw by rounding of the updates `r ± w_j·x_j`: the recomputed gap
+        // is allowed `rel·(‖y‖² + ‖y‖·Σ|w_j|‖x_j‖)` (the second term only matters on badly conditioned designs)
+        let wx: f64 = (0..p).map(|j| w[j].abs() * dot(&col(&c.x, j), &col(&c.x, j)).sqrt()).sum();
+        let close = |a: f64, b: f64| (a - b).abs() <= c.rel * (s + s.sqrt() * wx) + 1e-9 * b.abs() + 1e-12;
         ctx.require(close(gap, g2) || (near_stationary && close(gap, g1)), "gap_is_gap_of_result", &class, || format!("reported gap {} but recomputed {}", gap, g2));
     }
     // (2) non-negative
@@ -795,7 +801,8 @@ pub(crate) fn oracle_mtl(ctx: &mut Ctx, counts: &mut Vec<String>, c: &MtlCase, w
         let xscale: f64 = (0..p).map(|j| dot(&col(x, j), &col(x, j)).sqrt()).fold(0.0, f64::max);
         let near_stationary = l1 == 0.0 && dual_norm_mtl(x, w, &r, l2) <= 1e3 * c.rel * xscale * (s.sqrt() + 1e-300);
         let g1 = gap_mtl_const(&yc, w, &r, l1, l2, 1.0);
-        let close = |a: f64, b: f64| (a - b).abs() <= c.rel * s + 1e-9 * b.abs() + 1e-12;
+        let wx: f64 = (0..p).map(|j| (0..t).map(|k| w[[j, k]] * w[[j, k]]).sum::<f64>().sqrt() * dot(&col(x, j), &col(x, j)).sqrt()).sum();
+        let close = |a: f64, b: f64| (a - b).abs() <= c.rel * (s + s.sqrt() * wx) + 1e-9 * b.abs() + 1e-12;
         ctx.require(close(gap, g2) || (near_stationary && close(gap, g1)), "gap_is_gap_of_result", &class, || format!("reported {} recomputed {}", gap, g2));
     }
     ctx.require(gap >= -slack, "gap_nonneg", &class, || format!("gap {}", gap));
@@ -969,4 +976,5 @@ pub fn run(em: &mut Em, rng: &mut Rng) {
     for _ in 0..250 * f {
         op_mtl_oracle(em, rng);
     }
+    x::run(em, rng);
 }
